@@ -26,7 +26,7 @@ import extract  # noqa: E402
 from rstok import ExtractError  # noqa: E402
 
 VERUS_FLAGS = ["--triggers-mode", "silent", "--multiple-errors", "50", "--error-format=json",
-               "--output-json", "--time", "--rlimit", "240"]
+               "--output-json", "--time", "--rlimit", "800"]
 
 
 def sha_tree():
@@ -247,7 +247,7 @@ def compute(tier):
             still = None
             for k in (1, 2):
                 alt = run_verus(os.path.join(cdir, "woven.rs"),
-                                ["--smt-option", "smt.random_seed=%d" % (seed + k), "--rlimit", "480"])
+                                ["--smt-option", "smt.random_seed=%d" % (seed + k), "--rlimit", "1600"])
                 f2, _, _ = map_diags(meta, alt["diags"], "woven.rs")
                 still = set(f2) if still is None else (still & set(f2))
             for oid in list(failed):
@@ -267,7 +267,7 @@ def compute(tier):
             finally:
                 extract.FORCE_DESUGAR = False
             if fmeta is not None:
-                fr = run_verus(os.path.join(fdir, "woven.rs"), ["--smt-option", "smt.random_seed=%d" % seed, "--rlimit", "240"])
+                fr = run_verus(os.path.join(fdir, "woven.rs"), ["--smt-option", "smt.random_seed=%d" % seed, "--rlimit", "800"])
                 ff, ftool, _ = map_diags(fmeta, fr["diags"], "woven.rs")
                 n_loops = sum(1 for f in fmeta["functions"] for x in f["rules_applied"] if x["rule"] == "R11w")
                 forced = {"loops_desugared": n_loops, "wall_s": round(fr["wall_s"], 1),
